@@ -4,6 +4,7 @@ import (
 	"bytes"
 	"fmt"
 	"math/big"
+	"strings"
 
 	h "verif/harness"
 
@@ -207,8 +208,19 @@ func bigBytesEq(b []byte, v *big.Int) bool {
 // calleeEnd derives, from the frame's own last instruction, the gas the callee ended with and what it returned.
 func calleeEnd(f *jpFrame) (gas uint64, ret []byte, errText string, ok bool) {
 	s := f.last
-	if s == nil || s.Err != "" {
+	if s == nil {
 		return 0, nil, "", false
+	}
+	if s.Err == "stack_underflow" || s.Err == "stack_overflow" {
+		// the instruction was refused before anything was charged: the frame halts holding what it had
+		return s.Gas, nil, "exceptional halt: " + s.Err, true
+	}
+	if s.Err != "" {
+		return 0, nil, "", false
+	}
+	if f.lastFault != nil && f.lastFault.Seq > s.Seq && f.lastFault.PC == s.PC && f.lastFault.Err == "invalid_opcode" {
+		// an undefined instruction charges nothing: the frame halts holding what it had
+		return s.Gas, nil, "exceptional halt: invalid opcode", true
 	}
 	switch s.Op {
 	case h.STOP:
@@ -470,7 +482,11 @@ func checkPayload(res *CaseResult, which string, fail func(prop, rule, msg strin
 		if errS != nil {
 			got = *errS
 		}
-		if got != endErr {
+		if strings.HasPrefix(endErr, "exceptional halt") {
+			if got == "" {
+				fail("C05", "payload-error", "post join point received no error although the callee halted exceptionally", where)
+			}
+		} else if got != endErr {
 			fail("C05", "payload-error", fmt.Sprintf("post join point received error %q, the callee ended with %q", got, endErr), where)
 		}
 		res.Count("post_payloads_with_outcome_checked", 1)
